@@ -38,6 +38,13 @@ namespace igris
     private:
         std::vector<value_type, Alloc> storage = {};
 
+        // Two keys name the same entry when neither orders before the
+        // other under Compare (as in std::map), not when operator== says so.
+        static bool same_key(const Key &a, const Key &b)
+        {
+            return !Compare()(a, b) && !Compare()(b, a);
+        }
+
     public:
         flat_map() = default;
         flat_map(const flat_map &) = default;
@@ -148,7 +155,7 @@ namespace igris
         {
             auto it = std::find_if(
                 storage.begin(), storage.end(), [&key](const value_type &p) {
-                    return p.first == key;
+                    return same_key(p.first, key);
                 });
 
             if (it == storage.end())
@@ -164,7 +171,7 @@ namespace igris
         {
             auto it = std::find_if(
                 storage.begin(), storage.end(), [&key](const value_type &p) {
-                    return p.first == key;
+                    return same_key(p.first, key);
                 });
 
             if (it == storage.end())
@@ -179,7 +186,7 @@ namespace igris
         {
             auto it = std::find_if(
                 storage.begin(), storage.end(), [&key](const value_type &p) {
-                    return p.first == key;
+                    return same_key(p.first, key);
                 });
 
             if (it == storage.end())
@@ -194,7 +201,7 @@ namespace igris
         {
             auto it = std::find_if(
                 storage.begin(), storage.end(), [&key](const value_type &p) {
-                    return p.first == key;
+                    return same_key(p.first, key);
                 });
 
             if (it == storage.end())
@@ -209,7 +216,7 @@ namespace igris
         {
             return std::find_if(
                 storage.begin(), storage.end(), [&key](const value_type &p) {
-                    return p.first == key;
+                    return same_key(p.first, key);
                 });
         }
 
@@ -217,7 +224,7 @@ namespace igris
         {
             return std::find_if(
                 storage.begin(), storage.end(), [&key](const value_type &p) {
-                    return p.first == key;
+                    return same_key(p.first, key);
                 });
         }
 
@@ -225,7 +232,7 @@ namespace igris
         {
             return std::count_if(
                 storage.begin(), storage.end(), [&key](const value_type &p) {
-                    return p.first == key;
+                    return same_key(p.first, key);
                 });
         }
 
@@ -235,7 +242,7 @@ namespace igris
             auto it = std::find_if(
                 storage.begin(),
                 (iterator)storage.end(),
-                [&key](const value_type &p) { return p.first == key; });
+                [&key](const value_type &p) { return same_key(p.first, key); });
             if (it != storage.end())
             {
                 return std::make_pair(it, false);
@@ -249,7 +256,7 @@ namespace igris
             auto it = std::find_if(storage.begin(),
                                    (iterator)storage.end(),
                                    [&value](const value_type &p) {
-                                       return p.first == value.first;
+                                       return same_key(p.first, value.first);
                                    });
             if (it != storage.end())
             {
@@ -260,7 +267,7 @@ namespace igris
                                  (iterator)storage.end(),
                                  value,
                                  [](const value_type &a, const value_type &b) {
-                                     return a.first < b.first;
+                                     return Compare()(a.first, b.first);
                                  }),
                 value);
         }
